@@ -10,6 +10,7 @@ implementation's own observation violates property Cnn's L1 predicate".
 namespace Orbit.Driver
 
 structure PeerObs where
+  events : String := "-"
   values : List Nat := []
   idx    : List (String × String) := []
   status : Int × Int := (0, 0)
@@ -33,7 +34,12 @@ structure World where
   which `Load` handled the cached heads): the model adopts the next observed status -/
   resync   : List Nat := []
   acked    : List Nat := []               -- entries whose write call returned success
-  inflight : List Nat := []               -- peers with replication requests that have not settled     -- source peer's entry hashes at sync time
+  inflight : List Nat := []               -- peers with replication requests that have not settled
+  curDb    : Nat := 0                     -- multi-database scenarios: the database ops apply to
+  nDb      : Nat := 1
+  dbKinds  : List (Nat × Kind) := []
+  lastOpDb : Option Nat := none           -- database touched by the last state-changing op
+  dbAcls   : List (Nat × Acl) := []     -- source peer's entry hashes at sync time
   lineNo   : Nat := 0
   nFail    : Nat := 0
   nObs     : Nat := 0
@@ -44,12 +50,16 @@ def World.fail (w : World) (prop field msg : String) : World :=
   { w with nFail := w.nFail + 1,
            out := w.out.push s!"FAIL scn={w.scn} line={w.lineNo} prop={prop} field={field} msg={msg}" }
 
-def World.store (w : World) (p : Nat) : Store := ((w.stores.find? (·.1 == p)).map (·.2)).getD {}
+/-- key of peer `p`'s store of the current database -/
+def World.key (w : World) (p : Nat) : Nat := p + 1000 * w.curDb
+def World.dbKind (w : World) : Kind := ((w.dbKinds.find? (·.1 == w.curDb)).map (·.2)).getD w.kind
+def World.store (w : World) (p : Nat) : Store :=
+  ((w.stores.find? (·.1 == w.key p)).map (·.2)).getD { kind := w.dbKind, log := Log.empty (w.curDb + 1) }
 def World.setStore (w : World) (p : Nat) (s : Store) : World :=
-  { w with stores := (p, s) :: w.stores.filter (·.1 != p) }
-def World.obsOf (w : World) (p : Nat) : PeerObs := ((w.lastObs.find? (·.1 == p)).map (·.2)).getD {}
+  { w with stores := (w.key p, s) :: w.stores.filter (·.1 != w.key p) }
+def World.obsOf (w : World) (p : Nat) : PeerObs := ((w.lastObs.find? (·.1 == w.key p)).map (·.2)).getD {}
 def World.setObs (w : World) (p : Nat) (o : PeerObs) : World :=
-  { w with lastObs := (p, o) :: w.lastObs.filter (·.1 != p) }
+  { w with lastObs := (w.key p, o) :: w.lastObs.filter (·.1 != w.key p) }
 def World.entry (w : World) (n : Nat) : Option Entry := if n == 0 then none else w.entries[n - 1]?
 def World.entriesOf (w : World) (ns : List Nat) : List Entry := ns.filterMap w.entry
 def World.rank (w : World) (p : Nat) : Nat := ((w.ranks.find? (·.1 == p)).map (·.2)).getD 999
@@ -74,7 +84,7 @@ def World.onScn (_ : World) (toks : List String) : World :=
   let aclS := arg toks "acl"
   let acl : Acl := if aclS == "*" then { wildcard := true } else { ids := (commaList aclS).map peerNum }
   let peers := (commaList (arg toks "peers")).map peerNum
-  { scn := toks.getD 1 "?", kind := kind, acl := acl,
+  { scn := toks.getD 1 "?", kind := kind, acl := acl, dbKinds := [(0, kind)], dbAcls := [(0, acl)],
     stores := peers.map (fun p => (p, { kind := kind })) }
 
 /-- model `AddOperation` for the declared entry `n`, compared with the implementation's entry -/
@@ -178,7 +188,13 @@ def World.ancestry (w : World) (roots : List Nat) : List Nat :=
       go f ((w.entriesOf new).flatMap (·.next)) acc
   go (w.entries.size + 1) roots []
 
-def World.onObs (w : World) (toks : List String) : World :=
+def parseAcl (aclS : String) : Acl :=
+  if aclS == "*" then { wildcard := true } else { ids := (commaList aclS).map peerNum }
+
+def World.useDb (w : World) (k : Nat) : World :=
+  { w with curDb := k, acl := ((w.dbAcls.find? (·.1 == k)).map (·.2)).getD w.acl }
+
+def World.onObs1 (w : World) (toks : List String) : World :=
   let p := peerNum (toks.getD 1 "")
   if toks.getD 2 "" == "closed" then w else
   let w := { w with nObs := w.nObs + 1 }
@@ -191,10 +207,10 @@ def World.onObs (w : World) (toks : List String) : World :=
   let ilocal := cacheField (arg toks "local")
   let iremote := cacheField (arg toks "remote")
   let prev := w.obsOf p
-  let busy := w.inflight.contains p
-  let (w, s) := if w.resync.contains p || busy then
+  let busy := w.inflight.contains (w.key p)
+  let (w, s) := if w.resync.contains (w.key p) || busy then
       let s' := { s with status := { progress := ist.1, max := ist.2 } }
-      ({ w.setStore p s' with resync := w.resync.filter (· != p) }, s')
+      ({ w.setStore p s' with resync := w.resync.filter (· != w.key p) }, s')
     else (w, s)
   -- correspondence
   let mv := (values s.log).map (·.hash)
@@ -206,7 +222,7 @@ def World.onObs (w : World) (toks : List String) : World :=
   let w := if s.remoteHeads != iremote then w.fail "corr" "remote" s!"peer {p}: model {s.remoteHeads.map showNums}, implementation {arg toks "remote"}" else w
   let w := if (s.status.progress, s.status.max) != ist then w.fail "corr" "status" s!"peer {p}: model {s.status.progress}/{s.status.max}, implementation {arg toks "status"}" else w
   let ients := w.entriesOf iv
-  let w := match w.kind with
+  let w := match w.dbKind with
     | .log =>
       let il := namesToNums idxS
       let w := if il != iv then w.fail "C08" "list" s!"peer {p}: List(-1) {showNums il} differs from the log listing {showNums iv}" else w
@@ -215,8 +231,8 @@ def World.onObs (w : World) (toks : List String) : World :=
       let iidx := parseKVs idxS
       let w := if showKV s.idx != showKV iidx then w.fail "corr" "idx" s!"peer {p}: model {showKV s.idx}, implementation {showKV iidx}" else w
       -- C06 / C07: the index equals the replay of the implementation's own listing
-      let want := if w.kind == Kind.kv then lwwReplay ients else docReplay ients
-      let prop := if w.kind == Kind.kv then "C06" else "C07"
+      let want := if w.dbKind == Kind.kv then lwwReplay ients else docReplay ients
+      let prop := if w.dbKind == Kind.kv then "C06" else "C07"
       if showKV want != showKV iidx then
         w.fail prop "idx" s!"peer {p}: index {showKV iidx} but replay of its log {showNums iv} gives {showKV want}"
       else w
@@ -233,7 +249,7 @@ def World.onObs (w : World) (toks : List String) : World :=
   let w := ients.foldl (fun w e =>
       let w := if !(w.acl.canAppend e) || e.key != e.ident || !e.identOk || !e.sigOk then
         w.fail "C03" "member" s!"peer {p}: e{e.hash} (ident {e.ident}, key {e.key}) is visible but not authored by an authorised writer" else w
-      if e.logId != 1 || !e.hashOk then w.fail "C04" "member" s!"peer {p}: e{e.hash} is visible but tampered or written for another database" else w) w
+      if e.logId != w.curDb + 1 || !e.hashOk then w.fail "C04" "member" s!"peer {p}: e{e.hash} is visible but tampered or written for another database" else w) w
   let w := if iv.length != ilen || !(iv.all (fun h => h != 0)) then w.fail "C04" "shape" s!"peer {p}: Len()={ilen} but {iv.length} entries listed ({arg toks "values"})" else w
   -- C01: same entry set ⇒ same state
   let key := sortNums iv
@@ -254,7 +270,33 @@ def World.onObs (w : World) (toks : List String) : World :=
   let w := if !(iv.all (fun h => anc.contains h)) then
       w.fail "C05" "covers" s!"peer {p}: cached heads {showNums roots} do not cover the log {showNums iv}" else w
   -- C02-ish: after a sync from q with nothing rejected, p holds everything q held
-  w.setObs p { values := iv, idx := parseKVs idxS, status := ist, seen := true }
+  -- C09: a database that was not operated on shows no change (contents, status, emitted events)
+  let evS := (arg? toks "events").getD "-"
+  let w := match arg? toks "db", w.lastOpDb with
+    | some _, some opDb =>
+      if prev.seen && opDb != w.curDb && (prev.values != iv || prev.status != ist || prev.events != evS || showKV prev.idx != showKV (parseKVs idxS)) then
+        w.fail "C09" "isolation" s!"peer {p} database {w.curDb} changed while only database {opDb} was used: values {showNums prev.values}→{showNums iv} status {prev.status.1}/{prev.status.2}→{ist.1}/{ist.2} events {prev.events}→{evS}"
+      else w
+    | _, _ => w
+  w.setObs p { values := iv, idx := parseKVs idxS, status := ist, seen := true, events := evS }
+
+def World.onObs (w : World) (toks : List String) : World :=
+  match arg? toks "db" with
+  | some k =>
+    let cur := w.curDb
+    ((w.useDb (natOr k 0)).onObs1 toks).useDb cur
+  | none => w.onObs1 toks
+
+/-- announcements in multi-database scenarios: topic, address and entries must be one database's -/
+def World.onPub (w : World) (toks : List String) : World :=
+  if w.nDb ≤ 1 || toks.getD 2 "" == "none" then w else
+  let dbOf (s : String) : Nat := if s.startsWith "db" then natOr (s.drop 2).toString 0 else 9999
+  let t := dbOf (arg toks "topic")
+  let a := dbOf (arg toks "addr")
+  let heads := w.entriesOf (namesToNums (arg toks "heads"))
+  let w := if t != a then w.fail "C09" "channel" s!"peer {toks.getD 1 ""} published database {a}'s address on database {t}'s topic" else w
+  heads.foldl (fun w e => if e.logId != t + 1 then
+      w.fail "C09" "channel" s!"peer {toks.getD 1 ""} sent e{e.hash} (database {e.logId - 1}) on database {t}'s topic" else w) w
 
 /-- eventlog range query -/
 def World.onResult (w : World) (toks : List String) : World :=
@@ -350,10 +392,10 @@ def World.onRestarted (w : World) (toks : List String) : World :=
   let amount : Int := match w.pending.getD 2 "" with | "" => -1 | a => parseInt a
   let w := if arg toks "identity" != "true" then w.fail "C05" "identity" s!"peer {p} has a different identity after restart" else w
   let s := (w.store p).reopened
-  let w := { w with lastObs := w.lastObs.filter (·.1 != p) }
+  let w := { w with lastObs := w.lastObs.filter (·.1 != w.key p) }
   match s.load w.acl w.fetchAll amount with
   | .ok s' =>
-    let w := { w.setStore p s' with resync := p :: w.resync }
+    let w := { w.setStore p s' with resync := w.key p :: w.resync }
     if r != "ok" then w.fail (if amount == -1 then "C05" else "C15") "load" s!"peer {p}: reopening and Load({amount}) failed ({r})" else w
   | .error e =>
     let w := w.setStore p s
@@ -371,8 +413,25 @@ def World.step (w : World) (line : String) : World :=
   | "entry" =>
     let n := entryNum (toks.getD 1 "")
     if n != w.entries.size + 1 then w.fail "corr" "entry" s!"entry numbering: got {toks.getD 1 ""}, expected e{w.entries.size + 1}"
-    else { w with entries := w.entries.push (parseEntry toks n) }
-  | "op" => { w with pending := toks.drop 1 }
+    else
+      let e := parseEntry toks n
+      let lg := arg toks "log"
+      let e := if lg == "db" then { e with logId := w.curDb + 1 }
+               else if lg.startsWith "db" then { e with logId := natOr (lg.drop 2).toString 0 + 1 } else { e with logId := 9999 }
+      { w with entries := w.entries.push e }
+  | "op" =>
+    let w := { w with pending := toks.drop 1 }
+    let h := toks.getD 1 ""
+    if h == "usedb" then w.useDb (natOr (toks.getD 2 "") 0)
+    else if ["put", "del", "add", "docput", "docdel", "docputall", "docputbatch", "sync", "pubdeliver", "exchange", "restart", "inject", "syncasync"].contains h then
+      { w with lastOpDb := some w.curDb }
+    else w
+  | "opened" =>
+    let k := natOr (arg toks "db") 0
+    let kind := match arg w.pending "kind" with | "doc" => Kind.doc | "log" => Kind.log | _ => Kind.kv
+    let w := { w with dbKinds := (k, kind) :: w.dbKinds, dbAcls := (k, parseAcl (arg w.pending "acl")) :: w.dbAcls, nDb := k + 1 }
+    w.useDb k
+  | "pub" => w.onPub toks
   | "ack" => w.onAck toks
   | "ackbatch" => w.onAckBatch toks
   | "heads" => w.onHeads toks
@@ -385,21 +444,21 @@ def World.step (w : World) (line : String) : World :=
   | "final" =>
     -- C02: writes stopped, every link healed, every ordered pair exchanged heads: every replica holds
     -- every acknowledged write (and so, by C01, shows the same state)
-    w.stores.foldl (fun w (p, _) =>
+    w.stores.foldl (fun w (p, _) => if p ≥ 1000 then w else
       let o := w.obsOf p
       if !o.seen then w else
       let missing := w.acked.filter (fun n => !o.values.contains n)
       if missing.isEmpty then w else
         w.fail "C02" "converge" s!"peer {p} lacks acknowledged writes {showNums (sortNums missing)} after the final exchange round") w
   | "syncing" =>
-    let p := peerNum (toks.getD 1 "")
+    let p := w.key (peerNum (toks.getD 1 ""))
     { w with inflight := p :: w.inflight.filter (· != p), resync := p :: w.resync.filter (· != p) }
   | "settled" =>
-    let p := peerNum (toks.getD 1 "")
+    let p := w.key (peerNum (toks.getD 1 ""))
     if arg toks "quiesce" == "true" then { w with inflight := w.inflight.filter (· != p), resync := p :: w.resync.filter (· != p) } else w
   | "final12" =>
     -- C12: after malformed traffic, later valid messages were still handled
-    w.stores.foldl (fun w (p, _) =>
+    w.stores.foldl (fun w (p, _) => if p ≥ 1000 then w else
       let o := w.obsOf p
       if !o.seen then w else
       let missing := w.acked.filter (fun n => !o.values.contains n)
@@ -407,7 +466,7 @@ def World.step (w : World) (line : String) : World :=
         w.fail "C12" "deaf" s!"peer {p} lacks {showNums (sortNums missing)}: valid messages after malformed ones were not handled") w
   | "final11" =>
     -- C11: after aborted requests, an uncancelled request for the same or newer heads made everything visible
-    w.stores.foldl (fun w (p, _) =>
+    w.stores.foldl (fun w (p, _) => if p ≥ 1000 then w else
       let o := w.obsOf p
       if !o.seen then w else
       let missing := w.acked.filter (fun n => !o.values.contains n)
@@ -415,7 +474,7 @@ def World.step (w : World) (line : String) : World :=
         w.fail "C11" "wedged" s!"peer {p} still lacks {showNums (sortNums missing)} after an uncancelled request for the same or newer heads") w
   | "final10" =>
     -- C10: after the honest re-announcement every valid acknowledged write is visible everywhere
-    w.stores.foldl (fun w (p, _) =>
+    w.stores.foldl (fun w (p, _) => if p ≥ 1000 then w else
       let o := w.obsOf p
       if !o.seen then w else
       let missing := w.acked.filter (fun n => !o.values.contains n)
